@@ -6,7 +6,7 @@ from ..common import Names, rat, VERIF
 from . import c01
 
 PROP = "C08"
-LEAN_MODULE = "VK.Props.C08"
+LEAN_MODULE = "VK.Props.C08Scored"
 THEOREMS = [
     "VK.C08_scores_perm_invariant",
     "VK.C08_scores_condense_invariant",
@@ -19,6 +19,10 @@ THEOREMS = [
     "VK.C08_stv_representation_invariant",
     "VK.C08_stv_ballot_order",
     "VK.C08_stv_ballot_split",
+    "VK.scoreFromRankings_current",
+    "VK.electChoice_lineq",
+    "VK.stvLoop_lineq_inv",
+    "VK.C08_stv_representation_invariant_fractional",
 ]
 RULE = ("cases = deterministic configuration of every ranking / scoring / pairwise rule (as in C10) on a random profile; "
         "five transformations of the input: rename the candidates by a random bijection into a second name pool (sort "
